@@ -340,12 +340,29 @@ class _Optimizers(_Algorithm2D):
         elif len(method_kwargs) != num_axes:
             raise ValueError('Method kwargs must have the same length as the input axes')
 
+        # data is not sorted (skip_sorting=True), so have to reset the x and z ordering so
+        # that the one dimensional fitters correctly sort the data, outputs, and parameters
+        if self._sort_order is None:
+            axis_values = (self.x, self.z)
+            assume_sorted = True
+        else:
+            assume_sorted = False
+            if isinstance(self._sort_order, tuple):
+                if self._sort_order[0] is Ellipsis:
+                    axis_values = (self.x, self.z[self._inverted_order[1]])
+                else:
+                    axis_values = (
+                        self.x[self._inverted_order[0][:, 0]], self.z[self._inverted_order[1][0]]
+                    )
+            else:
+                axis_values = (self.x[self._inverted_order], self.z)
+
         keys = ('rows', 'columns')
         baseline = np.zeros(self._shape)
         params = {}
         for i, axis in enumerate(axes):
             fitter = Baseline(
-                (self.x, self.z)[axis], check_finite=self._check_finite, assume_sorted=True,
+                axis_values[axis], check_finite=self._check_finite, assume_sorted=assume_sorted,
                 output_dtype=self._dtype
             )
             fitter.banded_solver = self.banded_solver
